@@ -39,7 +39,7 @@ def _case(draw):
     keys = sorted({c['key'] if c['key'] is not None else c['name'] for c in calls})
     behave = {}
     for k in keys:
-        kind = draw(st.sampled_from(['value'] * 5 + B.BEHAVIOURS[1:]))
+        kind = draw(st.sampled_from(['value'] * 5 + B.BEHAVIOURS[1:] + ['excstop']))
         if kind != 'value':
             behave[k] = kind
     return {'cfg': cfg, 'calls': calls, 'behave': behave, 'order': draw(st.sampled_from(['fwd', 'rev', 'rot'])),
